@@ -32,6 +32,10 @@ def configs(tier, seed):
     cfgs.append({"aw": 1, "dw": 8, "align": 0, "subs": [{"aw": 1, "name": None, "addr": None}]})
     cfgs.append({"aw": 6, "dw": 8, "align": 0, "refused_before": [0, 1, 2],
                  "subs": [{"aw": 3, "name": "a", "addr": None}, {"aw": 2, "name": None, "addr": None}]})
+    # many windows: every number of subordinates from 5 to 17 (fan-in reductions of every shape)
+    for nsub in list(range(5, 18)) + ([33] if tier == "thorough" else []):
+        cfgs.append({"aw": 8, "dw": 8, "align": 0,
+                     "subs": [{"aw": 1 + (i % 3 == 0), "name": None if i % 4 == 1 else f"m{i}", "addr": None} for i in range(nsub)]})
     for c in cfgs:
         c["directed"] = True          # hand-written window sets are valid by construction: a refusal is a violation (must_accept)
     n = 60 if tier == "quick" else 1200
